@@ -79,6 +79,17 @@ def run(cfg, ops, impl='diskcache', seed=0, tid=1):
                     ret = R('int', [r])
                 elif name == 'clear':
                     c.clear(); ret = R('none')
+                elif name == 'settag':
+                    # DjangoCache extension: set(..., tag=)
+                    if impl == 'locmem':
+                        c.set(a['k'], a['v'], version=ver, **tkw)
+                    else:
+                        c.set(a['k'], a['v'], version=ver, tag='t%d' % a['tag'], **tkw)
+                    ret = R('none')
+                elif name in ('expire', 'evict', 'cull'):
+                    # DjangoCache extensions forwarding to the FanoutCache: number of items removed
+                    r = c.evict('t%d' % a['tag']) if name == 'evict' else getattr(c, name)()
+                    ret = R('int', [r])
                 else:
                     raise MachineryError('unknown django op ' + name)
             except ValueError:
@@ -147,6 +158,10 @@ def random_ops(rng, n):
             o = {'op': 'incr_version', 'a': {'k': k, 'd': rng.choice([1, 1, -1]) if ver_ == 2 else 1, 'ver': ver_}}
         elif r < 0.89:
             o = {'op': 'clear', 'a': {}}
+        elif r < 0.92:
+            o = {'op': 'settag', 'a': {'k': k, 'v': v, 'tm': tm, 'ver': ver, 'tag': rng.choice([1, 2])}}
+        elif r < 0.94:
+            o = rng.choice([{'op': 'evict', 'a': {'tag': rng.choice([1, 2])}}, {'op': 'expire', 'a': {}}, {'op': 'cull', 'a': {}}])
         else:
             o = {'op': 'tick', 'a': {'n': rng.choice([1, 1, 2, 3])}}
         ops.append(o)
